@@ -171,6 +171,10 @@ def run(ctx):
             same_jobs.append({'src': src, 'path': path, 'mode': 'same', 'queries': [qs[i] for i in hist]})
             hist_index.append((si, hist))
     ctx.log('%d sources, %d histories' % (len(sources), len(same_jobs)))
+    if os.environ.get('C16_DUMP'):            # debugging aid: the exact job lists of this run
+        os.makedirs(os.environ['C16_DUMP'], exist_ok=True)
+        with open(os.path.join(os.environ['C16_DUMP'], 'jobs.json'), 'w') as f:
+            json.dump({'fresh': fresh_jobs, 'same': same_jobs, 'hist_index': hist_index}, f)
     # process plan
     procs = []
     nshard = 10
